@@ -10,6 +10,7 @@ import itertools
 from fractions import Fraction
 
 import numpy as np
+import polars as pl
 import z3
 
 from symx import harness, load, rotation, stubs, smt
@@ -514,6 +515,34 @@ def sec_batch_average(rec, patches=None):
                     rec.query(f"{tag}/split-halves-partition-the-batch", [], z3.Or(*parts), key="C09/batch/not-the-count-weighted-mean", replay=replay_batch, twin=False)
 
 
+def replay_group_split(cex):
+    """installed library: LoaderGroup.average / average_split on groups with odd and even counts: the halves of every group are finite and recombine (with some split size) to the group average"""
+    with load.real_modules():
+        from acryo import SubtomogramLoader, Molecules
+
+        rng = np.random.default_rng(0)
+        tomo = rng.normal(size=(24, 24, 24)).astype(np.float32)
+        bad = {}
+        for counts in ((3, 2), (5, 4), (1, 3)):
+            g = sum(([k] * c for k, c in enumerate(counts)), [])
+            ld = SubtomogramLoader(tomo, Molecules(rng.uniform(6, 17, size=(len(g), 3)), features={"g": g}), order=1, output_shape=(3, 3, 3))
+            grp = ld.groupby("g")
+            avgs = grp.average()
+            for seed in (0, 1, 3):
+                halves = grp.average_split(seed=seed)
+                for k, c in enumerate(counts):
+                    sub = ld.filter(pl.col("g") == k).asnumpy()
+                    if not np.allclose(avgs[k], sub.mean(axis=0), atol=1e-5):
+                        bad[f"counts={counts},group{k}: average"] = True
+                    if c < 2:
+                        continue
+                    h = np.asarray(halves[k])
+                    ok = np.all(np.isfinite(h)) and any(np.allclose((h[0] * n0 + h[1] * (c - n0)) / c, sub.mean(axis=0), atol=1e-5) for n0 in range(1, c))
+                    if not ok:
+                        bad[f"counts={counts},group{k},seed={seed}: halves do not recombine to the group average"] = True
+        return len(bad) > 0, {"problems": sorted(bad)[:6]}
+
+
 def replay_reuse(cex):
     """installed library: a loader (corner-safe SubtomogramLoader at scale 1, MockLoader with a float32 template and order 3) used twice gives the same sub-tomograms, and its
     average is the mean of what it loads; the caller's template and molecules are not modified"""
@@ -643,7 +672,7 @@ def run(tier, procs=None, only=None):
 
 
 # every real-library oracle of this property (each returns (reproduced, detail)); used to confirm structural facts that carry no replay of their own
-ALL_REPLAYS = [lambda c: replay_split(4)(c), lambda c: replay_split(3, 2)(c), replay_batch, replay_reuse, replay_chunked_average]
+ALL_REPLAYS = [lambda c: replay_split(4)(c), lambda c: replay_split(3, 2)(c), replay_batch, replay_reuse, replay_chunked_average, replay_group_split]
 
 
 def replay(data):
